@@ -129,8 +129,10 @@ CLAIMED["C08"] = dict(
          "writes; Msg.Len() >= len(Pack()) uncompressed and, through a joint invariant between compressionLenSearch's suffix set "
          "and the packer's compression map, compressed; equality for escape-free records/messages of the 16 common types; "
          "PackBuffer's result does not depend on the buffer length, never fails for lack of room (classes buf/overflow excluded, "
-         "no panic), and uses the caller's buffer exactly when it is larger than the uncompressed length; option len() >= pack() "
-         "is a hypothesis the harness checks for every EDNS0/SVCB value; model tied to /repo by the translator plus vm_compute "
+         "no panic), and uses the caller's buffer exactly when it is larger than the uncompressed length; option / parameter len() >= pack() "
+         "is PROVED (with equality) for the 16 EDNS0 option types and 10 SVCB value types modelled at Go struct level "
+         "(Model/OptVal.v, compared with the real pack()/len() on generated values every run) and remains a harness-checked "
+         "hypothesis only for user-defined implementations of those interfaces; model tied to /repo by the translator plus vm_compute "
          "correspondence of Len and PackBuffer results",
     technique="machine-checked proof in Coq (alignment of translator-regenerated tables + compression-map invariant) + model/implementation correspondence by vm_compute")
 NOT_YET = {}
